@@ -212,6 +212,13 @@ def rawtext_rules(ctx):
                     "the parser reads everything after <%s> as text, yet the serializer escapes its text and writes an end tag "
                     "without reporting an error: '<plaintext>a<b' is written as '<plaintext>a&lt;b</plaintext>' and read back "
                     "literally" % nm, {"element": nm})
+    # (d) the decision must not depend on a formatting option: with the option the text of a raw-text element is
+    #     escaped, which the parser reads back literally
+    opt = [norm(n.ast) for n in cfg.nodes if n.kind == "test" and "escape_rcdata" in norm(n.ast)]
+    r.check("S2", not opt, "raw-decision-option:escape_rcdata", "%s:%d" % (REL, uses[0].lineno),
+            "with escape_rcdata=True the text of raw-text elements is escaped although the parser reads it raw: "
+            "'<script>a<b</script>' is written as '<script>a&lt;b</script>' and read back as the text 'a&lt;b', no error reported",
+            detail={"option_tests": opt})
     # (b) the decision must consult the namespace
     ns_used = any("namespace" in norm(n.ast) for n in cfg.stmt_nodes() if n.ast is not None and n.kind in ("test", "stmt")
                   and not isinstance(n.ast, ast.For))
